@@ -22,8 +22,8 @@ func payableMenu(w *world.World, o menuOpts) []world.Action {
 	dsts := [][]byte{uni.B0, uni.S0, uni.C1, uni.S1c}
 	odd := [][]byte{uni.M, uni.B0[:31], append(append([]byte{}, uni.B0...), 0)}
 	for _, from := range [][]byte{uni.A0, uni.S0} {
-		hasF := held(w, from, "F") > 0
-		hasS := held(w, from, "S\x01") > 0
+		hasF := held(w, from, tF) > 0
+		hasS := held(w, from, tS1) > 0
 		var shapes [][]uni.Ent
 		if hasF {
 			shapes = append(shapes, []uni.Ent{{Tok: uni.F, Nonce: 0, Q: 1}})
@@ -125,8 +125,8 @@ func shapesMenu(w *world.World, o menuOpts) []world.Action {
 	calls := [][][]byte{nil, {[]byte("f")}, {[]byte("fn_2"), {}}, {[]byte("f"), []byte("x"), {}}, {[]byte(""), []byte("x")}, {[]byte("")}}
 	one := [][]byte{{1}, {0, 1}, {0, 0, 0, 0, 0, 0, 0, 0, 1}}
 	for _, from := range [][]byte{uni.A0, uni.S0, uni.C1} {
-		hasF := held(w, from, "F") > 0
-		hasS := held(w, from, "S\x01") > 0
+		hasF := held(w, from, tF) > 0
+		hasS := held(w, from, tS1) > 0
 		for _, to := range [][]byte{uni.B0, uni.S0, uni.C1, uni.S1c} {
 			if string(to) == string(from) {
 				continue
@@ -190,7 +190,7 @@ func c10Profiles(tier Tier) []*explore.Profile {
 				}
 			}
 			for _, c := range [][]byte{uni.S0, uni.A0} {
-				if held(w, c, "F") > 0 {
+				if held(w, c, tF) > 0 {
 					acts = append(acts, uni.Call(c, uni.ESDT, vmcommon.BuiltInFunctionESDTBurn, uni.F, uni.Big(1)))
 				}
 			}
